@@ -6,16 +6,18 @@ src=$(cd "$1" && pwd); w=/tmp/confirm-$$
 git -C /repo worktree add --detach $w HEAD >/dev/null 2>&1 || exit 2
 trap 'git -C /repo worktree remove --force '$w' >/dev/null 2>&1; rm -rf '$w EXIT
 rmdir $w/src/test/googletest 2>/dev/null; cp -r /repo/src/test/googletest $w/src/test/googletest 2>/dev/null || cp -r /usr/src/googletest $w/src/test/googletest
-mkdir -p $w/seed; cp $src/* $w/seed/ 2>/dev/null
+# keep the depth of the seed directory below the worktree root (demos of two-seed deliveries live in seed/a, seed/b and use ../../src)
+case $(basename $src) in a|b) sd=$w/seed/$(basename $src);; *) sd=$w/seed;; esac
+mkdir -p $sd; cp $src/* $sd/ 2>/dev/null
 cfg() { cmake -S $w/src -B $w/_b_$1 -G Ninja -Wno-dev -DCMAKE_BUILD_TYPE=$1 -DENABLE_TESTS=on -DENABLE_FFTW=on -DENABLE_NAYUKI_PORTABLE=on -DENABLE_NAYUKI_AVX=on -DENABLE_SPQLIOS_AVX=on -DENABLE_SPQLIOS_FMA=on >/dev/null && ninja -C $w/_b_$1 >/dev/null 2>$w/_b_$1.err; }
 cfg optim || { echo "NOT-CONFIRMED: original does not build"; exit 1; }
-(cd $w/seed && timeout 1200 sh ./run_demo.sh $w/_b_optim) > $w/demo_orig.log 2>&1; d0=$?
+(cd $sd && timeout 1200 sh ./run_demo.sh $w/_b_optim) > $w/demo_orig.log 2>&1; d0=$?
 git -C $w apply $src/patch.diff || { echo "NOT-CONFIRMED: patch does not apply"; exit 1; }
 cfg optim || { echo "NOT-CONFIRMED: patched optim build fails"; tail -5 $w/_b_optim.err; exit 1; }
 cfg debug || { echo "NOT-CONFIRMED: patched debug build fails"; tail -5 $w/_b_debug.err; exit 1; }
 t=0
 for b in optim debug; do ctest --test-dir $w/_b_$b -j8 --timeout 900 > $w/ctest_$b.log 2>&1 || t=1; done
-(cd $w/seed && timeout 1200 sh ./run_demo.sh $w/_b_optim) > $w/demo_chg.log 2>&1; d1=$?
+(cd $sd && timeout 1200 sh ./run_demo.sh $w/_b_optim) > $w/demo_chg.log 2>&1; d1=$?
 echo "demo original exit=$d0; patched: tests $( [ $t = 0 ] && echo pass || echo FAIL ), demo exit=$d1"
 tail -3 $w/demo_chg.log | cut -c1-300
 if [ $d0 = 0 ] && [ $t = 0 ] && [ $d1 != 0 ]; then echo CONFIRMED; else echo NOT-CONFIRMED; tail -5 $w/ctest_optim.log $w/ctest_debug.log $w/demo_orig.log; exit 1; fi
